@@ -12,6 +12,7 @@ TRUSTED = [
     "Coq 8.16.1 kernel (coqc); no native_compute",
     "core/Sem.v: the semantic specification (values, interpretations, eval) the coincidence and truth-functionality theorems are stated against",
     "hand model models/Oracles.v of FreeVarsOracle, AtomsOracle, QuantifierOracle, TypesOracle, SizeOracle (and models/TypeChecker.v for the Bool-typed select case), tied to pysmt/oracles.py by this run's correspondence",
+    "translator harness/translate/dispatch_tr.py (Python ast -> Gallina, fail-closed) regenerates gen/Operators.v (node types, ids, names, groups) and gen/Dispatch.v (node type -> name of the handling method, per walker class) from the repository on every run; its output is cross-checked against the live tables (pysmt.operators, walker.functions[op].__name__) and the proofs Operators_proofs / Dispatch_oracles_proofs tie the hand model's case analysis to it",
     "harness/tocoq.py (FNode -> Gallina literal) and the set comparison inside Coq (set_eqb over term_eqb, proved correct in core/SyntaxLemmas.v)",
 ]
 ASSUME = [
